@@ -65,6 +65,8 @@ let handle (line : string) : string =
       (match root_of tbl root with
        | None -> "NOROOT"
        | Some r -> string_of_cl (run_evobj tbl r (bytes_of_hex hex)))
+  | ["sevobj"; tb; hex] ->
+      string_of_cl (run_sevobj (tables_of tb) (bytes_of_hex hex))
   | ["attr"; tb; name; v] ->
       (match find_prim (prims_of tb) name with
        | None -> "NOPRIM"
